@@ -508,6 +508,82 @@ theorem execute_error_order (key : I → K) (check : I → R) (cancelled : K →
 
 end main
 
+/-! ## the task handed to the pool returns nil: the failure of one item stays with that item -/
+
+section isolation
+variable {I K R : Type} [DecidableEq K]
+
+/-- a task function that never returns an error never cancels a sibling: the pool is `runGroups` -/
+theorem runPool_nil (check : I → R) (cancelled : K → Bool) : ∀ (gs : List (Group I K)),
+    runPool check (fun _ => false) cancelled false gs = runGroups check cancelled gs
+  | [] => rfl
+  | g :: gs => by
+    have ih := runPool_nil check cancelled gs
+    by_cases hc : cancelled g.key
+    · simp [runPool, runGroups, hc] at ih ⊢; exact ih
+    · simp [runPool, runGroups, hc] at ih ⊢; exact ih
+
+theorem executeP_nil (maxChecks : Nat) (key : I → K) (check : I → R) (cancelled : K → Bool)
+    (permRun permFan : List (Group I K) → List (Group I K)) (items : List (Item I)) :
+    executeP maxChecks key check (fun _ => false) cancelled permRun permFan items =
+      execute maxChecks key check cancelled permRun permFan items := by
+  unfold executeP execute
+  simp only [runPool_nil]
+
+/-- what the task function of the SOURCE returns after a check answered `r`: a non-nil error iff some
+`return` of the function literal handed to `pool.Go` is not `return nil` (regenerated on every run) -/
+def genRetErr : R → Bool := fun _ => !(Gen.Batch.poolTaskReturns.all (· == "return nil"))
+
+/-- **tie**: every return statement of the pool task is `return nil`; the pool is the one of
+`concurrency.NewPool`, which is built `WithCancelOnError` (so this is what isolation rests on) -/
+theorem tie_worker_returns_nil :
+    Gen.Batch.poolTaskReturns = ["return nil", "return nil"] ∧
+    Gen.Batch.poolCtor = "pool := concurrency.NewPool(ctx, int(bq.maxConcurrentChecks))" ∧
+    Gen.Batch.poolOptions = ["WithMaxGoroutines", "WithFirstError", "WithCancelOnError", "WithContext", "New"] := by decide
+
+theorem genRetErr_nil : (genRetErr : R → Bool) = fun _ => false := by
+  funext r
+  simp [genRetErr, tie_worker_returns_nil.1]
+
+/-- **item_error_isolated.**  Take the batch as the source runs it (task return value = `genRetErr`, request
+context alive) in two worlds: one where the check of the input `bad` answers whatever it answers (`check`),
+one where it fails in any way whatsoever (`check'` differs from `check` at most on inputs `same` as
+`bad`).  Then — for every schedule of the pool and every iteration order of the fan-out, independently in
+the two worlds — every correlation id whose item is not `same` as `bad` has the same outcome in both
+worlds, namely the outcome of the standalone check of its own item: the failure of one item changes no
+other id's outcome.  Corollary of `batch_spec` under the tie `tie_worker_returns_nil`. -/
+theorem item_error_isolated (maxChecks : Nat) (key : I → K) (check check' : I → R)
+    (same : I → I → Prop) (hkey : ∀ a b, key a = key b → same a b)
+    (hcheck : ∀ a b, same a b → check a = check b) (hcheck' : ∀ a b, same a b → check' a = check' b)
+    (bad : I) (hagree : ∀ a, ¬ same a bad → check' a = check a)
+    (permRun permFan permRun' permFan' : List (Group I K) → List (Group I K))
+    (hrun : ∀ gs, (permRun gs).Perm gs) (hfan : ∀ gs, (permFan gs).Perm gs)
+    (hrun' : ∀ gs, (permRun' gs).Perm gs) (hfan' : ∀ gs, (permFan' gs).Perm gs)
+    (items : List (Item I)) (res res' : Result R)
+    (h : executeP maxChecks key check genRetErr (fun _ => false) permRun permFan items = .ok res)
+    (h' : executeP maxChecks key check' genRetErr (fun _ => false) permRun' permFan' items = .ok res') :
+    ∀ it ∈ items, ¬ same it.inp bad →
+      mapGet res'.results it.cid = mapGet res.results it.cid ∧
+      mapGet res.results it.cid = some (some (.done (check it.inp))) := by
+  intro it hit hnb
+  rw [genRetErr_nil, executeP_nil] at h h'
+  have e := batch_spec maxChecks key check (fun _ => false) same hkey hcheck permRun permFan hrun hfan items res h it hit
+  have e' := batch_spec maxChecks key check' (fun _ => false) same hkey hcheck' permRun' permFan' hrun' hfan' items res' h' it hit
+  simp only [Bool.false_eq_true, ↓reduceIte] at e e'
+  rw [e, e', hagree _ hnb]
+  exact ⟨rfl, rfl⟩
+
+/-- **The tie is necessary**: a task that hands the error of its check to the pool (`retErr r = true` for
+the failing answer) makes the sibling that is scheduled after it `cancelled` instead of its own outcome. -/
+theorem worker_error_cancels_siblings :
+    ∃ res, executeP 50 (fun n : Nat => n) (fun n : Nat => n) (fun r => r == 0) (fun _ => false) id id
+        [⟨"slow", 0⟩, ⟨"healthy", 5⟩] = .ok res ∧
+      mapGet res.results "healthy" = some (some .cancelled) ∧
+      mapGet res.results "healthy" ≠ some (some (.done 5)) := by
+  refine ⟨_, rfl, ?_, ?_⟩ <;> decide
+
+end isolation
+
 /-! ## The key of the source: hypothesis `hkey` discharged by C24 -/
 
 section c24
